@@ -82,9 +82,11 @@ type MustAssignResult struct {
 
 // MustAssigner caches per-(function, parameter) results and resolves callees.
 type MustAssigner struct {
-	a     *Analysis
-	memo  map[maKey]*MustAssignResult
-	stack map[maKey]bool
+	a        *Analysis
+	memo     map[maKey]*MustAssignResult
+	stack    map[maKey]bool
+	nnErr    map[*ssa.Function]int // 1 every return is a non-nil error, 2 not, 3 in progress
+	sentinel map[*ssa.Global]bool
 }
 
 type maKey struct {
@@ -1463,6 +1465,15 @@ func (s *maState) classify(ev ssa.Value, b *ssa.BasicBlock, st bitset) bitset {
 					return s.classify(x.Call.Args[0], b, st)
 				}
 			}
+			// a module helper that builds the error (`errDataLength(n)`): every return of it is a non-nil error
+			if s.m.alwaysNonNilError(c, 0) {
+				return nil
+			}
+		}
+	case *ssa.UnOp:
+		// a sentinel: a package-level error variable that only the initialiser writes, with a non-nil value
+		if g, ok := x.X.(*ssa.Global); ok && x.Op == token.MUL && s.m.sentinelNonNil(g) {
+			return nil
 		}
 	}
 	// known non-nil by a dominating test
@@ -1483,4 +1494,145 @@ func (s *maState) classify(ev ssa.Value, b *ssa.BasicBlock, st bitset) bitset {
 		}
 	}
 	return st
+}
+
+// nonNilErrorValue: the value is an error that cannot be nil: a concrete value converted to the interface, the result
+// of an error constructor, of a module helper all of whose returns are such values, or a sentinel variable.
+func (m *MustAssigner) nonNilErrorValue(v ssa.Value, depth int) bool {
+	if depth > 4 {
+		return false
+	}
+	switch x := v.(type) {
+	case *ssa.MakeInterface:
+		return true
+	case *ssa.Call:
+		c := x.Call.StaticCallee()
+		if c == nil {
+			return false
+		}
+		switch c.String() {
+		case "errors.New", "fmt.Errorf", "github.com/pkg/errors.New", "github.com/pkg/errors.Errorf":
+			return true
+		case "github.com/pkg/errors.Wrap", "github.com/pkg/errors.Wrapf", "github.com/pkg/errors.WithStack", "github.com/pkg/errors.WithMessage":
+			return len(x.Call.Args) > 0 && m.nonNilErrorValue(x.Call.Args[0], depth+1)
+		}
+		return m.alwaysNonNilError(c, depth+1)
+	case *ssa.UnOp:
+		if g, ok := x.X.(*ssa.Global); ok && x.Op == token.MUL {
+			return m.sentinelNonNil(g)
+		}
+	case *ssa.Phi:
+		for _, e := range x.Edges {
+			if !m.nonNilErrorValue(e, depth+1) {
+				return false
+			}
+		}
+		return len(x.Edges) > 0
+	}
+	return false
+}
+
+// alwaysNonNilError: f has a body, its last result is an error, and every return yields a non-nil one.
+func (m *MustAssigner) alwaysNonNilError(f *ssa.Function, depth int) bool {
+	if f == nil || f.Blocks == nil || !hasErrorResult(f) || depth > 4 {
+		return false
+	}
+	if m.nnErr == nil {
+		m.nnErr = map[*ssa.Function]int{}
+	}
+	switch m.nnErr[f] {
+	case 1:
+		return true
+	case 2, 3:
+		return false // 3: being computed (recursion)
+	}
+	m.nnErr[f] = 3
+	ok, n := true, 0
+	for _, b := range f.Blocks {
+		ret, isRet := b.Instrs[len(b.Instrs)-1].(*ssa.Return)
+		if !isRet {
+			continue
+		}
+		n++
+		if !m.nonNilErrorValue(ret.Results[len(ret.Results)-1], depth+1) {
+			ok = false
+		}
+	}
+	if ok && n > 0 {
+		m.nnErr[f] = 1
+		return true
+	}
+	m.nnErr[f] = 2
+	return false
+}
+
+// sentinelNonNil: g is a package-level variable of type error that no function other than its package's initialiser
+// writes, and every store of the initialiser puts a non-nil error into it.
+func (m *MustAssigner) sentinelNonNil(g *ssa.Global) bool {
+	if m.sentinel == nil {
+		m.sentinel = map[*ssa.Global]bool{}
+	}
+	if r, ok := m.sentinel[g]; ok {
+		return r
+	}
+	m.sentinel[g] = false
+	pt, ok := g.Type().(*types.Pointer)
+	if !ok || !isErrorType(pt.Elem()) || g.Pkg == nil {
+		return false
+	}
+	name := GlobalName(GlobalKey(g))
+	for f, fc := range m.a.Facts {
+		if fc == nil {
+			continue
+		}
+		isInit := false
+		for p := f; p != nil; p = p.Parent() {
+			if p.Name() == "init" || strings.HasPrefix(p.Name(), "init#") {
+				isInit = true
+			}
+		}
+		if isInit {
+			continue
+		}
+		for _, ac := range fc.Accesses {
+			if ac.Write && ac.Global == name {
+				return false
+			}
+		}
+	}
+	// the address must not be taken (a store through a pointer to it would not be an access by name)
+	if refs := g.Referrers(); refs != nil {
+		for _, r := range *refs {
+			switch u := r.(type) {
+			case *ssa.UnOp:
+			case *ssa.Store:
+				if u.Addr != ssa.Value(g) {
+					return false
+				}
+			case *ssa.DebugRef:
+			default:
+				return false
+			}
+		}
+	}
+	init := g.Pkg.Func("init")
+	if init == nil {
+		return false
+	}
+	n := 0
+	for _, b := range init.Blocks {
+		for _, ins := range b.Instrs {
+			if st, ok := ins.(*ssa.Store); ok && st.Addr == ssa.Value(g) {
+				n++
+				if !m.nonNilErrorValue(st.Val, 0) {
+					return false
+				}
+			}
+		}
+	}
+	if n == 0 {
+		return false
+	}
+	m.sentinel[g] = true
+	return true
 }
